@@ -192,3 +192,84 @@ META = {
     'assumptions': ['collision freedom of SHA-256 and canonical serde_json output are trusted', 'version checks on the interface read path and edit histories as such are outside'],
     'trusted_base': ['mirsym MIR interpreter', 'recording serializer model', 'library models listed per obligation', 'z3'],
 }
+
+# ----------------------------------------------------------------------------- O15.5 interface files written by another format version / ABI are rejected when read
+def ob_interface_read(r, tier, seed):
+    W = e2.fresh_world(CRATES)
+    IU = W.tt.find_adt(['artifact', 'InterfaceUnit'], 'compiler')
+    fv, abi = z3.Int('format_version'), z3.Int('compiler_abi'); hchar = z3.Int('hash_char'); pchar = z3.Int('pkg_char')
+    ass = [fv >= 0, fv < 2**32, abi >= 0, abi < 2**32, z3.Or(hchar == ord('H'), hchar == ord('X')), z3.Or(pchar == ord('A'), pchar == ord('B'))]
+    r.bounds = 'one candidate interface file for package "A": format_version and compiler_abi any u32, stored hash equal or different from the recomputed one, declared package A or B'
+    r.assumptions = ['file system and JSON parsing are environment stubs (the file exists and parses to the symbolic InterfaceUnit); InterfaceUnit::compute_hash stubbed to a constant (hash correctness is O15.4 / SHA-256)',
+                     'oracle: a unit may be accepted only if its package matches, its hash validates and format_version / compiler_abi equal the compiler\'s constants']
+    for n in list(W.methods.get('compute_hash', [])): W.stubs[n[1]] = lambda ex, a: mkstr('H')
+    W.stubs['compile_error'] = lambda ex, a: Opaque('CompilationError'); W.opaque_int_format = True      # message text is not checked
+    def ov(f, g):
+        if g.endswith('Path::exists'):
+            def m_exists(ex, f_, a): return True
+            return m_exists
+        if g.endswith('fs::read_to_string') or g == 'read_to_string':
+            def m_read(ex, f_, a): return ok(mkstr('{json}'))
+            return m_read
+        if g.endswith('from_str') and 'InterfaceUnit' in f:
+            def m_from_json(ex, f_, a):
+                fields = []
+                for fname, fty in IU.variants[0].fields:
+                    fields.append({'format_version': fv, 'compiler_abi': abi, 'package': Str([pchar]), 'interface_hash': Str([hchar])}.get(fname, Opaque('iu.' + fname)))
+                return ok(Agg(IU.key, 0, fields))
+            return m_from_json
+        return None
+    W.overrides = [ov]
+    FV = None
+    def entry(ex):
+        paths = PyVec([Opaque('dir')])
+        res = ex.call('pipeline::separate::load_interface_from_paths', [mkstr('A'), paths])
+        return res.idx == 0
+    res = e2.explore(r, W, entry, ass)
+    consts = {}
+    for nm in ('FORMAT_VERSION', 'COMPILER_ABI'):
+        refc = W.const_ref('artifact::' + nm, 'compiler'); b = W.body(refc)
+        consts[nm] = b.value[1][1] if b.value is not None else None
+    if None in consts.values(): raise Unsupported('version constants not found')
+    for p in res:
+        r.cases += 1
+        if p.kind != 'ok': r.findings.append(Finding('panic', 'load_interface_from_paths panics: %s' % p.value, {}, True)); continue
+        accepted = p.value
+        good = z3.And(fv == consts['FORMAT_VERSION'], abi == consts['COMPILER_ABI'], hchar == ord('H'), pchar == ord('A'))
+        m, dt = e2.check(ass + p.pc + [z3.Not(good) if accepted else good]); r.queries += 1; r.solver_s += dt
+        r.nontrivial += 1
+        if m is not None:
+            w = {'format_version': e2.mval(m, fv), 'compiler_abi': e2.mval(m, abi), 'hash_valid': chr(e2.mval(m, hchar)) == 'H', 'package': chr(e2.mval(m, pchar))}
+            key = 'foreign-version-interface-accepted' if accepted and (w['format_version'] != consts['FORMAT_VERSION'] or w['compiler_abi'] != consts['COMPILER_ABI']) else ('bad-interface-accepted' if accepted else 'good-interface-rejected')
+            if not any(f.key == key for f in r.findings):
+                ok_, detail = True, 'verdict of the real load_interface_from_paths MIR on this unit'
+                if key == 'foreign-version-interface-accepted': ok_, detail = replay_foreign_interface(w['format_version'] if w['format_version'] != consts['FORMAT_VERSION'] else consts['FORMAT_VERSION'], w['compiler_abi'])
+                r.findings.append(Finding(key, 'interface file %s: %s (compiler constants: format %d, abi %d)' % ('accepted' if accepted else 'rejected', json.dumps(w), consts['FORMAT_VERSION'], consts['COMPILER_ABI']), w, ok_, detail))
+        elif len(r.samples) < 2: r.samples.append({'accepted': accepted})
+
+def replay_foreign_interface(fmt, abi):
+    """real CLI: build package A's interface, rewrite it with other version numbers and a self-consistent hash (native driver), then
+    check a package that imports A against it: acceptance reproduces the finding"""
+    import tempfile, subprocess, shutil, os
+    from vlib import build
+    d = tempfile.mkdtemp(prefix='vf-c15-')
+    try:
+        os.makedirs(os.path.join(d, 'A')); os.makedirs(os.path.join(d, 'out'))
+        open(os.path.join(d, 'A', 'lib.gom'), 'w').write('package A\nfn a_f() -> int32 { 1 }\n')
+        open(os.path.join(d, 'main.gom'), 'w').write('package Main\nimport A\nfn main() -> unit { string_println(int32_to_string(A::a_f())) }\n')
+        b = build.compiler_bin()
+        r1 = subprocess.run([b, 'check', '--package', 'A', '--input', os.path.join(d, 'A', 'lib.gom'), '--output', os.path.join(d, 'out', 'A.interface')], capture_output=True, text=True, timeout=60)
+        if r1.returncode != 0: return False, 'could not produce the interface of A: ' + (r1.stdout + r1.stderr)[-200:]
+        rc, out, errt = build.run_driver('vreplay', json.dumps({'fn': 'retag_interface', 'args': [open(os.path.join(d, 'out', 'A.interface')).read(), fmt, abi]}) + '\n')
+        txt = json.loads(out.splitlines()[0])['ok']
+        open(os.path.join(d, 'out', 'A.interface'), 'w').write(txt)
+        r2 = subprocess.run([b, 'check', '--package', 'Main', '--input', os.path.join(d, 'main.gom'), '--interface-path', os.path.join(d, 'out'), '--output', os.path.join(d, 'out', 'Main.interface')], capture_output=True, text=True, timeout=60)
+        return r2.returncode == 0, '`compiler check --package Main` against A.interface rewritten to format_version=%d compiler_abi=%d (hash self-consistent): exit %d %s' % (fmt, abi, r2.returncode, (r2.stdout + r2.stderr)[-160:].replace('\n', ' | '))
+    finally:
+        shutil.rmtree(d, ignore_errors=True)
+
+_obl = obligations
+def obligations():
+    obs = _obl()
+    obs.insert(3, Ob('O15.5-interface-read', 'an interface file is accepted only with the compiler\'s format version / ABI, matching package and valid hash', ob_interface_read, ('quick', 'thorough'), 1, {}))
+    return obs
